@@ -25,6 +25,7 @@ PROP = {
         "GunYu.Props.C19.recv_path_reports",
         "GunYu.Props.C19.recv_failed_sends_nothing",
         "GunYu.Props.C19.acked_batch_executed_in_order",
+        "GunYu.Props.C19.segments_never_skip",
         "GunYu.Props.C19.segments_effective_prefix",
         "GunYu.Props.C19.segments_executed_downward_closed",
         "GunYu.Props.C19.segments_replay_only_unstored",
@@ -96,15 +97,20 @@ PROP = {
         "(example in Props/C19.lean: sendFunc <true,true> [other, ok] = 2 sends); no double execution follows only because batch2.Dispatch "
         "of a one-node batch fails before anything is submitted (Put error / closed node pipeline) - argued from the code, not proved, "
         "not reachable by the fault injection (faults surface at Receive)",
-        "composition over segments (Model/ClusterSegments.lean, blocking modes) is proved for EVERY list of segments "
-        "(segments_effective_prefix, segments_position_sound, segments_clean_final_equals_spec, segments_replay_only_unstored, "
-        "segments_no_replay_no_duplicate; segments_executed_downward_closed under the fault model PrefixRun: a cut batch executes per group "
-        "a prefix of its part). The admissibility of a batch there (AppOK: within its range, nothing twice; Complete: an "
-        "acknowledged batch executed everything, per group in order) is the content of the per-segment theorems of ClusterRoute: "
-        "per_key_order_partial (strictly increasing per key) and the bridge acked_batch_executed_in_order (an acknowledged batch's commands "
-        "are, per key, a sublist of the segment's execution log in put order). What is NOT a Lean lemma: the identification of ClusterRoute's "
-        "command ids / keys with stream positions / groups, and that a segment's log holds only commands put in it - by construction, checked on the code by the C19out monitors (per-key order, no gap, "
-        "checkpoint-ahead-of-execution); positions are command indices, not byte offsets",
+        "composition over segments (Model/ClusterSegments.lean) is proved for EVERY list of segments/events, but it is a bookkeeping "
+        "automaton: what every event must satisfy is ASSUMED (guards of `step`: AppOK = within its range, nothing twice; Complete = an "
+        "acknowledged batch executed everything, per group in order - the content of per_key_order_partial and the bridge "
+        "acked_batch_executed_in_order) together with two named hypotheses: Disciplined (blocking discipline: a batch that was not "
+        "acknowledged stores no position) and, for segments_never_skip / segments_executed_downward_closed, PrefixRun (fault model: a cut "
+        "batch executes per group a prefix of its part; an out-of-order cut is a run of the automaton but not of the fault model - example "
+        "in Props). Derived: restart-from-stored, position arithmetic, the REAL per-group log never skips across replays "
+        "(segments_never_skip), the effective stream (keepLast: last execution of every command = final state for overwriting commands; "
+        "says nothing about APPEND/INCR-style repetition, which the property allows only as replay after a lost acknowledgement). "
+        "Disciplined holds for the BLOCKING modes on a cluster target, plain (4140441) and transactional (5c65a57: the position goes in a "
+        "batch of its own after the data batch; before that the cluster client's dropping of MULTI/EXEC let it ride in the same pipeline - "
+        "C19out forced scenario txn-block-resume keeps watching it); it does NOT hold for the pipelined modes (C19-F2). Not Lean lemmas: PrefixRun from ClusterRoute "
+        "(with grp = key it should follow from per_key_order_partial; with grp = connection it is false under ASK), the identification of "
+        "ClusterRoute ids/keys with stream positions/groups, byte offsets vs command indices - exercised by the C19out monitors",
         "pipelined modes: the composition statement is false (stored_position_covered_pipelined_false, decide-checked counter-witness "
         "= C19-F2; reorder = C19-F1); stored_position_covered_stmt is the full statement kept for them",
         "the transaction system T* models txnBatcher (used by bisync); the transactional path of sendCmdsBatch goes through Batch/batch2 with "
